@@ -737,7 +737,10 @@ func detectExeType(src []byte, codeStart, codeEnd *int) byte {
 
 	jumpsX86 := 0
 	jumpsARM64 := 0
-	count := *codeEnd - *codeStart
+	// The scan below reads up to src[i+4]: stay inside the block whatever the header said
+	*codeStart = max(*codeStart, 0)
+	*codeEnd = min(*codeEnd, len(src)-4)
+	count := max(*codeEnd-*codeStart, 0)
 	var histo [256]int
 
 	for i := *codeStart; i < *codeEnd; i++ {
